@@ -54,7 +54,7 @@ theorem le_total (seqs : List Key) (a b : Key) : (le seqs a b || le seqs b a) = 
   simp only [Bool.or_eq_true, decide_eq_true_eq, Bool.and_eq_true, beq_iff_eq]
   omega
 
-theorem le_trans' (seqs : List Key) (a b c : Key) (h1 : le seqs a b = true) (h2 : le seqs b c = true) :
+theorem le_trans2 (seqs : List Key) (a b c : Key) (h1 : le seqs a b = true) (h2 : le seqs b c = true) :
     le seqs a c = true := by
   unfold le at *
   simp only [Bool.or_eq_true, decide_eq_true_eq, Bool.and_eq_true, beq_iff_eq] at *
@@ -63,7 +63,7 @@ theorem le_trans' (seqs : List Key) (a b c : Key) (h1 : le seqs a b = true) (h2 
 theorem sortedPrefixes_pairwise (seqs : List Key) :
     (sortedPrefixes seqs).Pairwise fun a b => le seqs a b = true := by
   unfold sortedPrefixes
-  exact List.pairwise_mergeSort (le := le seqs) (fun a b c => le_trans' seqs a b c) (fun a b => le_total seqs a b) _
+  exact List.pairwise_mergeSort (le := le seqs) (fun a b c => le_trans2 seqs a b c) (fun a b => le_total seqs a b) _
 
 
 theorem mem_allPrefixes (seqs : List Key) (k : Key) :
